@@ -237,7 +237,7 @@ StringFilter(name, s, args) ==
                   ELSE S(JoinWith(SubSeq(ws, 1, args[1].v), <<32>>) \o el)
          ELSE FUnspec
     [] name = "escape" -> IF n = 0 THEN S(HtmlEscape(s)) ELSE FUnspec
-    [] name = "escape_once" -> IF n = 0 /\ ~(38 \in {s[i] : i \in 1..Len(s)}) THEN S(HtmlEscape(s)) ELSE FUnspec
+    [] name = "escape_once" -> IF n = 0 /\ AmpersandsModelled(s) THEN S(HtmlEscape(HtmlUnescape(s))) ELSE FUnspec
     [] name = "url_encode" -> IF n = 0 THEN S(UrlEncode(s)) ELSE FUnspec
     [] name = "url_decode" -> IF n = 0 THEN (LET r == UrlDecode(s) IN IF r.ok THEN S(r.s) ELSE FUnspec) ELSE FUnspec
     [] OTHER -> FUnspec
